@@ -20,6 +20,7 @@ func (g *Gen) sqlConf() *SqlConf {
 	case 4:
 		c.Incr = true
 	}
+	c.PresetLast = c.Dialect != "" && g.rng.Intn(2) == 0
 	return c
 }
 
@@ -100,7 +101,7 @@ func genC19(g *Gen) {
 			}
 			g.begin("readsql precision")
 			g.do(Step{Op: "ReadSQL", Recv: -1, Cols: bsList([]string{"price", "rate", "txt"}), Rs: rows,
-				Sql: &SqlConf{Precision: p, CoerceNames: []BS{toBS("price")}, CoerceKinds: []int{2}}})
+				Sql: &SqlConf{Precision: p, CoerceNames: []BS{toBS("price")}, CoerceKinds: []int{2}, Dialect: []string{"", "sqlite", "postgres"}[(p+lead)%3], PresetLast: p%2 == 1}})
 			g.end()
 		}
 	}
@@ -131,6 +132,9 @@ func genC19(g *Gen) {
 		}
 		if g.rng.Intn(3) == 0 {
 			conf.Precision = []int{1, 2, 2, 3, 6}[g.rng.Intn(5)]
+		}
+		if g.rng.Intn(3) == 0 {
+			conf.Dialect, conf.PresetLast = g.oneOf([]string{"sqlite", "postgres", "mysql"}), g.rng.Intn(2) == 0
 		}
 		rows := [][]SqlVal{}
 		for i := 0; i < nr; i++ {
